@@ -75,14 +75,14 @@ def stages(tier):
     quick = tier == "quick"
     st = []
     st.append(dict(label="I1: invariant at every point, bound 1", harness="h_session", variant="sched",
-                   configs=S.grid_small(1, bs=(64,), qs=(1, 2, 10), nmax=3, endings=("close",), sizes=None) +
+                   configs=S.grid_small(1, bs=(64,), qs=(1, 2, 10) if not quick else (2, 10), nmax=3, endings=("close",), sizes=None) +
                            S.grid_small(1, bs=(64,), cs=(32, 64, 128), qs=(2,), nmax=4, endings=("close",), sizes=[48, 300], earlies=False),
                    share=0.25, what="objects below and above the container size; invariant evaluated at every scheduling point"))
     st.append(dict(label="I2: invariant at every point, bound 2", harness="h_session", variant="sched", chunk=2,
-                   configs=S.grid_small(2, bs=(64,), cs=(32, 64, 65, 256) if quick else None, qs=(1, 2), nmax=2 if quick else 3,
+                   configs=S.grid_small(2, bs=(64,), cs=(32, 64, 65, 256) if quick else None, qs=(1, 2) if not quick else (2,), nmax=2 if quick else 3,
                                         endings=("close",), earlies=not quick), share=0.4))
     st.append(dict(label="G: growth in the number of containers", harness="h_session", variant="sched", chunk=1,
-                   configs=growth_configs(quick), share=0.6, post=growth_post,
+                   configs=growth_configs(quick), share=0.6, post=growth_post, reserve=15,
                    what="N containers of 4 KiB / 64 KiB (/1 MiB), objects of 1 KiB and of two containers, read and write, the 6 static "
                         "priority orders; N in {N0, 2 N0, 4 N0(, 8 N0)} with N0 beyond pipeline saturation; peak(N) must not exceed peak(N0) + one container + two objects + 64 KiB"))
     return st
